@@ -16,6 +16,8 @@ NOTES = ['the 512 binary neighbourhoods are enumerated completely, in both forms
          'all 16 gliders (4 directions x 4 phases) at every placement of the 5x5 torus; beehive, loaf, boat, tub at every '
          'placement of the torus with exactly the one-cell halo',
          'the model side is the memoize=False engine for all three memoize modes: the result must not depend on the mode',
+         'sequence cases come first in the process; half of them pass a fresh wrapper of the rule created for that '
+         'sequence, so that what they detect does not depend on earlier cases',
          'sequence cases: 2-4 evolve2d calls in one process with the same cpl.game_of_life_rule object, mixing '
          "neighbourhood='von Neumann' / 'Moore' and the memoize modes; every Moore call is compared (model and np.roll "
          'oracle), the von Neumann calls are modelled (masked sum) but not compared: the property does not speak about them',
@@ -86,6 +88,14 @@ def generate(rng, tier):
     # 0. FIRST in the process (before any other evolve2d call has seen these shapes): a call with r = 2 or r = 0
     #    on a shape, then Life on the same shape
     for c in _other_radius(rng, 300 if thorough else 100):
+        yield c
+    # 0b. call sequences in one process (state kept between calls must not leak), BEFORE any other case calls evolve2d
+    #     with the Life rule: what a sequence can detect must not depend on what ran earlier in the process.  Half of
+    #     them pass a FRESH wrapper of the rule (a new callable per sequence: a per-callable cache starts empty), the
+    #     other half cpl.game_of_life_rule itself (whose only earlier use is by the other half of these sequences).
+    for i, c in enumerate(_sequences(rng, 600 if thorough else 150)):
+        c['fresh'] = (i // 5) % 2 == 0
+        c['kind'] += '/fresh-callable' if c['fresh'] else '/library-function'
         yield c
     # 1. the complete finite domain, both forms
     for v in range(512):
@@ -177,9 +187,6 @@ def generate(rng, tier):
                 for memo in (0, 1, 2):
                     yield {'kind': 'evolve/all-grids-%dx%d' % (R, C), 'op': 'evolve', 'hist': [g],
                            'T': 2 + (v + memo) % 2, 'memo': memo}
-    # 6. call sequences in one process, one rule object (state kept between calls must not leak)
-    for c in _sequences(rng, 600 if thorough else 150):
-        yield c
     # 7. the model's translation is np.roll
     for i in range(400 if thorough else 60):
         R, C = rng.randint(1, 9), rng.randint(1, 9)
@@ -209,7 +216,7 @@ def _other_radius(rng, n):
             calls.append({'nb': 'M', 'hist': [g if k == 0 else _grid04(rng, R, C)], 'T': rng.randint(2, 4),
                           'memo': (i + k) % 3})
         yield {'kind': 'sequence/other_radius/r%d-%s' % (r0, 'square' if R == C else 'rect'), 'op': 'sequence',
-               'calls': calls}
+               'calls': calls, 'fresh': True}
 
 
 def _sequences(rng, n):
@@ -278,6 +285,10 @@ def run_impl(c):
         return np.roll(np.array(c['g']), (c['da'], c['db']), axis=(0, 1)).tolist()
     if op == 'sequence':
         rule = cpl.game_of_life_rule          # the same function object for every call of the sequence
+        if c.get('fresh'):
+            def life(n, cell, t):             # a callable nobody has seen before: per-callable state starts empty
+                return cpl.game_of_life_rule(n, cell, t)
+            rule = life
         out = []
         for call in c['calls']:
             h = np.array(call['hist'])
